@@ -426,6 +426,10 @@ def jitter_theorems(u, done):
                 stmt, props, proof = JITTER_TM[fn]
                 th.append((f"JitterRng.{fn}", stmt, props, fn))
                 CUSTOM_PROOFS[f"JitterRng.{fn}"] = proof
+                if fn != "fill_bytes":
+                    # the partial operations (C14's subject) found in the source are the ones Checked.Jitter accounts for
+                    th.append((f"JitterRng.{fn}_partial_ops", f"Ext.JitterRng.{fn}_partial_ops = Jitter.TM.partialOps \"{fn}\"", ["C14"], fn))
+                    CUSTOM_PROOFS[f"JitterRng.{fn}_partial_ops"] = "first | rfl | decide"
     if u.name == "JitterLfsr" and "lfsr" in done:
         th.append(("JitterLfsr.lfsr", "Ext.JitterLfsr.lfsr = Jitter.lfsr", ["C12", "C15"], "lfsr"))
     if u.name == "EcState" and "stuck" in done:
